@@ -292,6 +292,11 @@ def reductions(sc):
         c = _cp(sc)
         del c["frames"]["scalar_packed"]
         yield "frames:scalar_float", c
+    for key in ("h_store", "staggered_masks"):
+        if sc["grid"].get(key):
+            c = _cp(sc)
+            del c["grid"][key]
+            yield f"grid:no_{key}", c
     if sc["frames"].get("land_fill"):
         c = _cp(sc)
         del c["frames"]["land_fill"]
